@@ -8,7 +8,9 @@ cells are converted by int() on the token text."""
 import ast
 
 from .. import AnalysisError
-from ..astutil import src, call_name, dotted, walk_local, try_fold, ancestors
+from ..astutil import src, call_name, dotted, walk_local, try_fold, ancestors, path_conditions
+from ..fn import expand
+from ..normal import canon_expr, canon_test
 from ..fn import FA
 from .. import rx
 from .yannylib import YANNY, YannyClass
@@ -136,6 +138,61 @@ def protected(e, fa, depth=0, trusted=frozenset()):
     return False
 
 
+def convert_model(f, fa):
+    """How convert() turns tokens into numbers: [(type words, 'int' | 'float', elementwise?, converter applied to the token itself?, node)].
+    Two spellings are read: membership tests on literal sets of type words guarding int()/float() calls, and a literal table from type
+    words to the builtins int / float whose entry is called."""
+    out = []
+    # (A) if typ in {..}: ... int(x) / [int(v) for v in x]
+    for n in walk_local(f.node):
+        if isinstance(n, ast.If) and isinstance(n.test, ast.Compare) and len(n.test.ops) == 1 and isinstance(n.test.ops[0], ast.In):
+            s_ = const_set(fa.deep(n.test.comparators[0]))
+            if s_ is None:
+                continue
+            for c in walk_local(n):
+                if isinstance(c, ast.Call) and isinstance(c.func, ast.Name) and c.func.id in ('int', 'float') \
+                        and any(c is x for b_ in n.body for x in ast.walk(b_)):
+                    arg = c.args[0] if c.args else None
+                    out.append((s_, c.func.id, any(isinstance(a, (ast.ListComp, ast.GeneratorExp)) for a in ancestors(c)),
+                                isinstance(arg, ast.Name) and len(c.args) == 1 and not c.keywords, c, n))
+    if out:
+        return out
+    # (B) table = {'short': int, ..., 'double': float};  table[typ](x)
+    tables = []
+    for n in walk_local(f.node):
+        if isinstance(n, ast.Dict) and n.keys and all(isinstance(k, ast.Constant) and isinstance(k.value, str) for k in n.keys) \
+                and all(isinstance(v, ast.Name) and v.id in ('int', 'float') for v in n.values):
+            tables.append(n)
+    if len(tables) != 1:
+        return out
+    tab = tables[0]
+    par = getattr(tab, '_parent', None)
+    tname = par.targets[0].id if isinstance(par, ast.Assign) and len(par.targets) == 1 and isinstance(par.targets[0], ast.Name) else None
+
+    def is_entry(e, depth=0):
+        """e evaluates to table[<type word of the column>]."""
+        if isinstance(e, ast.Subscript) and ((tname and isinstance(e.value, ast.Name) and e.value.id == tname) or e.value is tab):
+            return True
+        if isinstance(e, ast.Name) and depth < 3:
+            vs = [v for d, v in fa.defs(e)]
+            return bool(vs) and all(v is not None and is_entry(v, depth + 1) for v in vs)
+        return False
+    for c in walk_local(f.node):
+        if isinstance(c, ast.Call) and is_entry(c.func):
+            # the table must be consulted only for its own keys
+            guarded = any(pol and isinstance(t_, ast.Compare) and len(t_.ops) == 1 and isinstance(t_.ops[0], ast.In) and tname
+                          and isinstance(t_.comparators[0], ast.Name) and t_.comparators[0].id == tname for t_, pol in
+                          [(canon_test(t0) if pol0 else canon_test(ast.UnaryOp(op=ast.Not(), operand=t0)), True) for t0, pol0 in path_conditions(c)])
+            if not guarded:
+                raise AnalysisError('C01: convert() calls an entry of its converter table without a membership test: not an idiom this checker can judge')
+            arg = c.args[0] if c.args else None
+            for conv in ('int', 'float'):
+                s_ = {k.value for k, v in zip(tab.keys, tab.values) if v.id == conv}
+                out.append((s_, conv, any(isinstance(a, (ast.ListComp, ast.GeneratorExp)) for a in ancestors(c)),
+                            isinstance(arg, ast.Name) and len(c.args) == 1 and not c.keywords, c, tab))
+    return out
+
+
 def check_typemap(ctx, yc):
     f_w = yc.method('dtype_to_struct')
     f_r = yc.method('dtype')
@@ -163,16 +220,11 @@ def check_typemap(ctx, yc):
     ints = floats = None
     inode = fnode = None
     fa_c = FA(f_c)
-    for n in walk_local(f_c.node):
-        if isinstance(n, ast.If) and isinstance(n.test, ast.Compare) and len(n.test.ops) == 1 and isinstance(n.test.ops[0], ast.In):
-            s = const_set(fa_c.deep(n.test.comparators[0]))
-            if s is None:
-                continue
-            convs = {call_name(c) for c in walk_local(n) if isinstance(c, ast.Call) and call_name(c) in ('int', 'float')}
-            if 'int' in convs and ints is None:
-                ints, inode = s, n
-            elif 'float' in convs and floats is None:
-                floats, fnode = s, n
+    for s_, conv, elementwise, direct, cnode, anchor in convert_model(f_c, fa_c):
+        if conv == 'int':
+            ints, inode = (ints or set()) | s_, anchor
+        else:
+            floats, fnode = (floats or set()) | s_, anchor
     ctx.need(ints is not None and floats is not None, 'convert(): int / float type sets not found')
     want_i = {k for k, v in reader.items() if CANON.get(v, v).startswith('i')}
     want_f = {k for k, v in reader.items() if CANON.get(v, v).startswith('f')}
@@ -255,22 +307,47 @@ def check_protect_flow(ctx, yc):
 def check_protect_pred(ctx, yc):
     f = yc.method('protect')
     fa = FA(f)
+    # the condition under which the quoted form is returned: the path condition of the return (or the test of a conditional
+    # expression) whose value contains a double quote, with temporaries expanded and negations pushed inwards
     quoted_if = None
-    for n in walk_local(f.node):
-        if isinstance(n, ast.If):
-            for r in n.body:
-                if isinstance(r, ast.Return) and r.value is not None and '"' in src(r.value):
-                    quoted_if = n
-    ctx.need(quoted_if is not None, 'protect(): the branch returning the quoted form was not found')
-    t = quoted_if.test
-    disj = t.values if isinstance(t, ast.BoolOp) and isinstance(t.op, ast.Or) else [t]
+    cond = None
+    for r in walk_local(f.node):
+        if not (isinstance(r, ast.Return) and r.value is not None and '"' in src(r.value)):
+            continue
+        pcs = list(path_conditions(r))
+        v = r.value
+        if isinstance(v, ast.IfExp):
+            inq, ino = '"' in src(v.body), '"' in src(v.orelse)
+            if inq != ino:
+                pcs.append((v.test, inq))
+        if not pcs:
+            continue
+        parts = []
+        for t_, pol in pcs:
+            e_ = expand(t_, fa, depth=5)
+            parts.append(e_ if pol else ast.UnaryOp(op=ast.Not(), operand=e_))
+        cond = canon_test(parts[0] if len(parts) == 1 else ast.BoolOp(op=ast.And(), values=parts))
+        quoted_if = r
+    ctx.need(quoted_if is not None and cond is not None, 'protect(): the branch returning the quoted form was not found')
+    t = cond
+    disj0 = t.values if isinstance(t, ast.BoolOp) and isinstance(t.op, ast.Or) else [t]
+    disj = []
+    for d in disj0:
+        # constant on the right
+        if isinstance(d, ast.Compare) and len(d.ops) == 1 and isinstance(d.left, ast.Constant) and not isinstance(d.comparators[0], ast.Constant) \
+                and type(d.ops[0]) in (ast.Lt, ast.LtE, ast.Gt, ast.GtE, ast.Eq, ast.NotEq):
+            flip = {ast.Lt: ast.Gt, ast.LtE: ast.GtE, ast.Gt: ast.Lt, ast.GtE: ast.LtE, ast.Eq: ast.Eq, ast.NotEq: ast.NotEq}[type(d.ops[0])]
+            d = ast.fix_missing_locations(ast.Compare(left=d.comparators[0], ops=[flip()], comparators=[d.left]))
+        disj.append(d)
     has_empty = has_hash = has_space = None
     for d in disj:
         s = src(d)
         if isinstance(d, ast.Compare) and isinstance(d.left, ast.Call) and call_name(d.left) == 'len' \
-                and try_fold(d.comparators[0]) == 0 and isinstance(d.ops[0], ast.Eq):
+                and ((try_fold(d.comparators[0]) == 0 and isinstance(d.ops[0], (ast.Eq, ast.LtE))) or
+                     (try_fold(d.comparators[0]) == 1 and isinstance(d.ops[0], ast.Lt))):
             has_empty = d
-        elif isinstance(d, ast.UnaryOp) and isinstance(d.op, ast.Not) and isinstance(d.operand, ast.Name):
+        elif isinstance(d, ast.UnaryOp) and isinstance(d.op, ast.Not) and (isinstance(d.operand, (ast.Name, ast.IfExp)) or (
+                isinstance(d.operand, ast.Call) and call_name(d.operand) in ('str', 'decode', 'len'))):
             has_empty = d
         elif isinstance(d, ast.Compare) and isinstance(d.comparators[0], ast.Constant) and d.comparators[0].value == '' \
                 and isinstance(d.ops[0], ast.Eq):
@@ -315,9 +392,10 @@ def check_protect_pred(ctx, yc):
     rets = [r for r in walk_local(f.node) if isinstance(r, ast.Return) and r.value is not None]
     names = set()
     for r in rets:
-        names |= {n.id for n in ast.walk(r.value) if isinstance(n, ast.Name)}
+        names |= {n.id for n in ast.walk(expand(r.value, fa, depth=5)) if isinstance(n, ast.Name)}
     funcs = {id(c.func) for c in ast.walk(t) if isinstance(c, ast.Call)}
-    tested = {n.id for n in ast.walk(t) if isinstance(n, ast.Name) and id(n) not in funcs} - {'re'}
+    tested = {n.id for n in ast.walk(t) if isinstance(n, ast.Name) and id(n) not in funcs} - {'re', 'np', 'numpy', 'str', 'bytes', 'isinstance'}
+    names -= {'np', 'numpy'}
     ctx.check('C01.PROTECT-PRED', tested and tested <= names, f, quoted_if,
               'the text tested (%s) is the text returned' % sorted(tested),
               msg='protect() tests %s but returns %s' % (sorted(tested), sorted(names)), construct='protect tested vs returned')
@@ -357,34 +435,78 @@ def check_strwidth(ctx, yc):
         isinstance(c, ast.Call) and call_name(c) == 'append' for c in walk_local(n))]
     ctx.need(loop, 'dtype_to_struct: column loop not found')
     lp = loop[-1]
+
+    def branch_of(node):
+        """'V' when node is only reached for a sub-array column (kind == 'V'), 'N' when only for the others, None otherwise."""
+        for t_, pol in path_conditions(node):
+            te = canon_test(expand(t_, fa, depth=4))
+            if isinstance(te, ast.Compare) and len(te.ops) == 1 and isinstance(te.ops[0], (ast.Eq, ast.NotEq)):
+                sides = [te.left, te.comparators[0]]
+                if any(isinstance(x, ast.Attribute) and x.attr == 'kind' for x in sides) and any(isinstance(x, ast.Constant) and x.value == 'V' for x in sides):
+                    return 'V' if (pol == isinstance(te.ops[0], ast.Eq)) else 'N'
+        return None
+
+    def level(e, br, depth=0):
+        """'col' (the column's own dtype) / 'elem' (the element dtype of a sub-array column) / None."""
+        if depth > 5:
+            return None
+        if isinstance(e, ast.Attribute) and e.attr == 'base':
+            return 'elem'
+        if isinstance(e, ast.Subscript) and isinstance(e.value, ast.Attribute) and e.value.attr == 'subdtype' and try_fold(e.slice) == 0:
+            return 'elem'
+        if isinstance(e, ast.Subscript) and isinstance(e.value, ast.Name) and isinstance(e.slice, ast.Name) and isinstance(lp.target, ast.Name) \
+                and e.slice.id == lp.target.id:
+            return 'col'
+        if isinstance(e, ast.Name):
+            ls = {level(v, br, depth + 1) for d, v in fa.defs(e) if v is not None and branch_of(d) in (None, br)}
+            return ls.pop() if len(ls) == 1 else None
+        return None
+
+    def holders(e, attr_test, br, depth=0):
+        """The dtype expressions X such that e evaluates (in branch br) to something X-derived recognised by attr_test(X-expression)."""
+        out = []
+        if depth > 5:
+            return out
+        x = attr_test(e)
+        if x is not None:
+            return [x]
+        if isinstance(e, ast.Name):
+            for d, v in fa.defs(e):
+                if v is not None and branch_of(d) in (None, br):
+                    out += holders(v, attr_test, br, depth + 1)
+        return out
+
+    def code_of(e):          # X.str[1:]
+        if isinstance(e, ast.Subscript) and isinstance(e.value, ast.Attribute) and e.value.attr == 'str':
+            return e.value.value
+        return None
+
+    def size_of(e):          # X.itemsize
+        if isinstance(e, ast.Attribute) and e.attr == 'itemsize':
+            return e.value
+        return None
+    keys = [n.slice for n in walk_local(lp) if isinstance(n, ast.Subscript) and isinstance(n.ctx, ast.Load) and isinstance(n.value, ast.Name)
+            and any(isinstance(v, ast.Dict) for d, v in fa.defs(n.value) if v is not None)]
+    ctx.need(keys, 'dtype_to_struct: lookup of the type word in the writer table not found')
     fmt = [c for c in walk_local(lp) if isinstance(c, ast.Call) and call_name(c) == 'format' and isinstance(c.func.value, ast.Constant)
-           and c.func.value.value == '[{0:d}]' and c.args and isinstance(c.args[0], ast.Name)]
-    ctx.need(len(fmt) >= 2, 'dtype_to_struct: array-length / string-width suffixes not found')
+           and c.func.value.value == '[{0:d}]' and c.args]
     width = None
     for c in fmt:
-        cond = [src(a.test) for a in ancestors(c) if isinstance(a, ast.If)]
-        if any("'SU'" in x for x in cond):
+        conds = [src(expand(t_, fa, depth=4)) for t_, pol in path_conditions(c)]
+        if any("'SU'" in x for x in conds):
             width = c.args[0]
     ctx.need(width is not None, 'dtype_to_struct: string width suffix not found')
-    elem = lambda txt: ('subdtype[0]' in txt) or ('.base' in txt)
-    tdefs = [(d, v) for st in walk_local(lp) if isinstance(st, ast.Assign) and src(st.targets[0]) == 't' for d, v in [(st, st.value)]]
-    wdefs = [(st, st.value) for st in walk_local(lp) if isinstance(st, ast.Assign) and src(st.targets[0]) == width.id]
-    ctx.need(tdefs and wdefs, 'dtype_to_struct: type / width definitions not found')
     bad = []
-    for (td, tv) in tdefs:
-        def block_of(st):
-            par = st._parent
-            for fld in ('body', 'orelse', 'finalbody'):
-                lst = getattr(par, fld, None)
-                if isinstance(lst, list) and any(st is x for x in lst):
-                    return (id(par), fld)
-            return (id(par), '?')
-        same_branch = [wv for (wd, wv) in wdefs if block_of(wd) == block_of(td)]
-        for wv in same_branch:
-            if elem(src(tv)) != elem(src(wv)):
-                bad.append((src(tv), src(wv)))
-    ctx.check('C01.STRWIDTH', not bad, f, wdefs[0][0], 'type code and string width come from the same dtype level in every branch (%d branch(es))' % len(tdefs),
-              msg='the type code is taken from the element dtype (`%s`) but the string width from the whole column dtype (`%s`): a string-array column '
+    n_br = 0
+    for br in ('V', 'N'):
+        tl = {level(x, br) for x in holders(keys[0], code_of, br)}
+        wl = {level(x, br) for x in holders(width, size_of, br)}
+        ctx.need(tl and wl and None not in tl and None not in wl, 'dtype_to_struct: the dtype level of the type code / string width could not be followed')
+        n_br += 1
+        if br == 'V' and tl != wl:
+            bad.append((sorted(tl), sorted(wl)))
+    ctx.check('C01.STRWIDTH', not bad, f, width, 'type code and string width come from the same dtype level in every branch (%d branch(es))' % n_br,
+              msg='for a sub-array column the type code is taken from the %s dtype but the string width from the %s dtype: a string-array column '
                   '(S6, (3,)) is declared char[3][18] and reads back with another type' % (bad[0] if bad else ('', '')), construct='string width level: %s' % (bad[:1],))
 
 
@@ -459,25 +581,13 @@ def check_intconv(ctx, yc):
     f = yc.method('convert')
     fa = FA(f)
     count = 0
-    for n in walk_local(f.node):
-        if isinstance(n, ast.If) and isinstance(n.test, ast.Compare) and isinstance(n.test.ops[0], ast.In):
-            for r in walk_local(n):
-                if isinstance(r, ast.Return) and r.value is not None:
-                    v = r.value
-                    elt = v.elt if isinstance(v, (ast.ListComp, ast.GeneratorExp)) else v
-                    if isinstance(elt, ast.Call) and call_name(elt) in ('list', 'tuple') and elt.args and isinstance(elt.args[0], (ast.ListComp, ast.GeneratorExp)):
-                        elt = elt.args[0].elt
-                    if not (isinstance(elt, ast.Call) and call_name(elt) in ('int', 'float')):
-                        continue
-                    count += 1
-                    arg = elt.args[0] if elt.args else None
-                    direct = isinstance(arg, ast.Name) and len(elt.args) == 1
-                    kind = call_name(elt)
-                    ctx.check('C01.INTCONV', direct, f, r,
-                              'convert(): %s cells are converted by %s(<token>) directly' % ('integer' if kind == 'int' else 'float', kind),
-                              msg='convert() turns a token into %s via %s: 64-bit integers above 2**53 (or other values) lose '
-                                  'precision through the intermediate conversion' % (kind, src(elt)),
-                              construct='conversion ' + src(elt))
+    for s_, kind, elementwise, direct, elt, anchor in convert_model(f, fa):
+        count += 1
+        ctx.check('C01.INTCONV', direct, f, elt,
+                  'convert(): %s cells are converted by %s(<token>) directly%s' % ('integer' if kind == 'int' else 'float', kind, ' (element by element)' if elementwise else ''),
+                  msg='convert() turns a token into %s via %s: 64-bit integers above 2**53 (or other values) lose '
+                      'precision through the intermediate conversion' % (kind, src(elt)),
+                  construct='conversion ' + src(elt))
     ctx.need(count >= 4, 'convert(): fewer than four int()/float() conversions found')
 
 
